@@ -8,18 +8,22 @@
 (*   parse_export_request.                                                  *)
 (* Pure operators (no variables) so that the trace module can EXTEND it.    *)
 (*                                                                         *)
-(* Fl = [san, clchk] selects the variant:                                   *)
+(* Fl = [san, clchk, qfret] selects the variant:                            *)
 (*   san   = FALSE : send_http_error puts str(exc) / the offending header   *)
 (*                   value into CIMErrorDetails as it is (the tree as read) *)
 (*   san   = TRUE  : CR/LF replaced, non-ASCII escaped before send_header   *)
 (*   clchk = FALSE : content_len = int(headers.get('Content-Length', 0));   *)
 (*                   body = rfile.read(content_len)     (the tree as read)  *)
 (*   clchk = TRUE  : non-numeric / negative / oversize value -> 400         *)
+(*   qfret = TRUE  : `return` after the queue.Full error response (the      *)
+(*                   tree as read)                                          *)
+(*   qfret = FALSE : do_POST falls through to send_success_response: a      *)
+(*                   second response is written on the same connection      *)
 (***************************************************************************)
 EXTENDS ListenerHttpReq
 
-Legacy == [san |-> FALSE, clchk |-> FALSE]
-Fixed  == [san |-> TRUE,  clchk |-> TRUE]
+Legacy == [san |-> FALSE, clchk |-> FALSE, qfret |-> TRUE]
+Fixed  == [san |-> TRUE,  clchk |-> TRUE,  qfret |-> TRUE]
 
 Blank == [outcome |-> "closed", nresp |-> 0, status |-> 0, lineok |-> FALSE,
           hdrsyn |-> FALSE, framing |-> FALSE, rawnl |-> FALSE,
@@ -86,7 +90,12 @@ AfterRead(seen, fl, QueueFull) ==
          Export200(<<"ERROR">>, FALSE)                            \* code 4
     [] seen \in {"validExport", "dupParam"} ->
          \* params is a dict: a repeated NewIndication collapses to the last
-         IF QueueFull THEN Export200(<<"ERROR">>, FALSE)          \* code 1
+         IF QueueFull
+         THEN IF fl.qfret THEN Export200(<<"ERROR">>, FALSE)     \* code 1
+              ELSE \* the ERROR response, then the success response: what a
+                   \* reader of the connection sees is the first one
+                   \* followed by a second status line; nothing was queued
+                   [Export200(<<"ERROR">>, FALSE) EXCEPT !.nresp = 2]
          ELSE Export200(<< >>, TRUE)
 
 (* what rfile.read(content_len) hands to the parser                        *)
